@@ -6,12 +6,18 @@ masks / references / boundaries compared exactly (bit patterns).
 Oracle (on the implementation's own output): every observation inside the covered range
 is in exactly one pre-drop interval, masks aligned, boundaries chained and containing
 their members, references as configured, drop rule, min_n_intervals error.
+
+The range an observation MUST be covered in (`required_cover`) and the effective thresholds
+(`effective_minimums`: the constructor caps) are computed from the configuration and the data
+only, never from what the implementation reports or stores.
 """
 import itertools
+import multiprocessing
 import warnings
 
 import numpy as np
 
+import core
 from core import f2b, fl, il
 
 REFS = ["center", "right", "left", "callable"]
@@ -38,21 +44,44 @@ def _err_name(e):
     return type(e).__name__
 
 
-def run_impl(case, min_pts, min_iv):
-    """returns dict(K, masks, refs, bounds, callable_calls) or dict(err=...)"""
+DEFAULTS = {"min_pts": 50, "min_iv": 3, "right_open": True, "include_max": True, "last_full": True,
+            "value_range": None}  # documented defaults (docstrings of virocon/intervals.py)
+
+
+def np_data(case):
+    """the array handed to the slicer (dtype as the case says)"""
+    if case.get("as_int"):
+        return np.array(case["data"], dtype=float).astype(np.int64)  # integer-valued observations
+    if case.get("dtype") == "float32":
+        return np.array(case["data"], dtype=np.float32)
+    return np.array(case["data"], dtype=float)
+
+
+def run_impl(case, min_pts, min_iv, omit=False):
+    """returns dict(K, masks, refs, bounds, callable_calls) or dict(err=...).
+    omit=True: construct the slicer with ONLY its mandatory argument (all defaults omitted)."""
     from virocon.intervals import (
         WidthOfIntervalSlicer,
         NumberOfIntervalsSlicer,
         PointsPerIntervalSlicer,
     )
 
-    data = np.array(case["data"], dtype=float)
-    if case.get("as_int"):
-        data = data.astype(np.int64)  # integer-valued observations handed over as an integer array
+    data = np_data(case)
+    arg = data.tolist() if case.get("as_list") else data
     kind = case["slicer"]
     ref = _mk_ref(case.get("ref", "callable"))
+    if isinstance(ref, str) and case.get("ref_spelling"):
+        ref = case["ref_spelling"]  # same keyword, other capitalisation
     try:
-        if kind == "width":
+        if omit:
+            ref = None
+            if kind == "width":
+                s = WidthOfIntervalSlicer(case["width"])
+            elif kind == "number":
+                s = NumberOfIntervalsSlicer(case["n_intervals"])
+            else:
+                s = PointsPerIntervalSlicer(case["n_points"])
+        elif kind == "width":
             s = WidthOfIntervalSlicer(
                 case["width"],
                 reference=ref,
@@ -81,16 +110,19 @@ def run_impl(case, min_pts, min_iv):
             )
         with warnings.catch_warnings():
             warnings.simplefilter("ignore")
-            masks, refs, bounds = s.slice_(data)
+            masks, refs, bounds = s.slice_(arg)
+        out = {
+            "K": len(masks),
+            "masks": ["".join("1" if b else "0" for b in np.asarray(m, dtype=bool)) for m in masks],
+            "masklen_ok": all(np.asarray(m).shape == data.shape for m in masks),
+            "refs": [float(r) for r in refs],
+            "bounds": [(float(a), float(b)) for a, b in bounds],
+        }
+        if not (len(out["refs"]) == len(out["bounds"]) == out["K"]):
+            return {"err": "ragged", "msg": f"{out['K']} masks, {len(out['refs'])} references, "
+                                            f"{len(out['bounds'])} boundaries"}
     except Exception as e:  # noqa: BLE001
         return {"err": _err_name(e), "msg": str(e)[:200]}
-    out = {
-        "K": len(masks),
-        "masks": ["".join("1" if b else "0" for b in np.asarray(m, dtype=bool)) for m in masks],
-        "masklen_ok": all(np.asarray(m).shape == data.shape for m in masks),
-        "refs": [float(r) for r in refs],
-        "bounds": [(float(a), float(b)) for a, b in bounds],
-    }
     if isinstance(ref, RecordingRef):
         out["calls"] = ref.calls
     return out
@@ -124,7 +156,8 @@ def model_line(case, min_pts, min_iv):
     )
 
 
-def parse_model(ans):
+def parse_model(ans, n=1):
+    """n = number of observations: with n == 0 every mask prints as an empty token"""
     t = ans.split()
     if t[0] == "ERR":
         return {"err": t[1]}
@@ -132,11 +165,14 @@ def parse_model(ans):
     masks, refs, bounds = [], [], []
     p = 2
     for _ in range(K):
-        # an empty mask (no data) prints as an empty token -> handle by K>0 and len(data)=0 never generated
-        masks.append(t[p])
-        refs.append(None if t[p + 1] == "-" else int(t[p + 1]))
-        bounds.append((int(t[p + 2]), int(t[p + 3])))
-        p += 4
+        if n == 0:
+            masks.append("")
+        else:
+            masks.append(t[p])
+            p += 1
+        refs.append(None if t[p] == "-" else int(t[p]))
+        bounds.append((int(t[p + 1]), int(t[p + 2])))
+        p += 3
     return {"K": K, "masks": masks, "refs": refs, "bounds": bounds}
 
 
@@ -163,7 +199,7 @@ def compare(impl, model, case):
         if model["refs"][k] is not None and f2b(impl["refs"][k]) != model["refs"][k]:
             return f"reference {k} impl={impl['refs'][k]!r} model-bits={model['refs'][k]}"
     if "calls" in impl and case.get("ref", "callable") == "callable":
-        data = np.array(case["data"], dtype=float)
+        data = np_data(case).astype(float)
         if len(impl["calls"]) != impl["K"]:
             return "callable reference not called once per interval"
         for k in range(impl["K"]):
@@ -173,37 +209,131 @@ def compare(impl, model, case):
     return None
 
 
+def effective_minimums(case, min_pts, min_iv):
+    """thresholds the slicer has to apply, computed from the configuration ALONE (not from the slicer's
+    attributes): NumberOfIntervalsSlicer lowers min_n_intervals to n_intervals, PointsPerIntervalSlicer
+    lowers min_n_points to n_points (constructor rules, Properties/C10.lean number_error_iff_capped /
+    ppi_kept_iff_capped); WidthOfIntervalSlicer applies both minimums as given."""
+    if case["slicer"] == "number":
+        min_iv = min(min_iv, case["n_intervals"])
+    if case["slicer"] == "ppi":
+        min_pts = min(min_pts, case["n_points"])
+    return min_pts, min_iv
+
+
+def required_cover(case, data):
+    """observations that MUST be in exactly one pre-drop interval, from configuration and data alone
+    (never from the boundaries the implementation reports).
+      Width : value range [lower, upper], lower = value_range[0] or 0, upper = value_range[1] or max(data);
+              right_open=True -> every x with lower <= x <= upper (the upper end lies strictly inside the last
+              interval, the starts run to upper + width); right_open=False -> lower < x <= upper.
+      Number: [lower, upper] = value_range or (min(data), max(data)); lower <= x <= upper with include_max,
+              lower <= x < upper without.
+      PointsPerInterval: every observation."""
+    n = len(data)
+    if n == 0:
+        return np.zeros(0, dtype=bool)
+    kind = case["slicer"]
+    if kind == "ppi":
+        return np.ones(n, dtype=bool)
+    vr = case["value_range"] or (None, None)
+    with np.errstate(invalid="ignore"):
+        if kind == "width":
+            lo = 0.0 if vr[0] is None else vr[0]
+            hi = float(np.max(data)) if vr[1] is None else vr[1]
+            lo_ok = (data >= lo) if case["right_open"] else (data > lo)
+            return lo_ok & (data <= hi)
+        lo = float(np.min(data)) if vr[0] is None else vr[0]
+        hi = float(np.max(data)) if vr[1] is None else vr[1]
+        return (data >= lo) & ((data <= hi) if case["include_max"] else (data < hi))
+
+
+def boundary_checks(kind, data, M, b, tag="", gaps=True):
+    """reported boundaries: ordered, not overlapping (Width/Number pre-drop: sharing their edge), containing
+    their interval's members"""
+    bad = []
+    K = len(b)
+    for k in range(K):
+        if not (b[k][0] <= b[k][1]):
+            bad.append((tag + "boundaries_ordered", f"interval {k}: {b[k]}"))
+    for k in range(K - 1):
+        if b[k][1] > b[k + 1][0]:
+            bad.append((tag + "boundaries_overlap", f"intervals {k},{k+1}: {b[k][1]!r} > {b[k+1][0]!r}"))
+        elif b[k][1] < b[k + 1][0] and kind != "ppi" and gaps:
+            bad.append((tag + "boundaries_gap", f"intervals {k},{k+1}: {b[k][1]!r} < {b[k+1][0]!r}"))
+    for k in range(K):
+        xs = data[M[k]]
+        if len(xs) and (xs.min() < b[k][0] or xs.max() > b[k][1]):
+            bad.append((tag + "boundaries_contain_members",
+                        f"interval {k}: {b[k]} members {xs.min()!r}..{xs.max()!r}"))
+    return bad
+
+
+def reference_checks(case, native, M, b, refs, tag=""):
+    """references are the configured centre / left / right of the reported boundaries, or the callable of the
+    interval's members"""
+    ref = case.get("ref", "callable")
+    K = len(b)
+    if ref != "callable":
+        rel = 2e-6 if case.get("dtype") == "float32" else 1e-9
+        for k in range(K):
+            lo, hi = b[k]
+            want = {"center": (lo + hi) / 2, "left": lo, "right": hi}[ref]
+            tol = rel * max(1.0, abs(lo), abs(hi))
+            if not abs(refs[k] - want) <= tol:
+                return [(tag + "reference_value", f"interval {k} ref {refs[k]!r} expected {want!r} ({ref})")]
+    else:
+        for k in range(K):
+            xs = native[M[k]]
+            with warnings.catch_warnings():
+                warnings.simplefilter("ignore")
+                want = float(np.median(xs)) if len(xs) else float("nan")
+            got = refs[k]
+            if not (got == want or (np.isnan(got) and np.isnan(want))):
+                return [(tag + "reference_value", f"interval {k} callable ref {got!r} expected {want!r}")]
+    return []
+
+
+def mask_matrix(impl, n):
+    return np.array([[c == "1" for c in m] for m in impl["masks"]], dtype=bool).reshape(impl["K"], n)
+
+
+def error_is_legitimate(case, data):
+    """inputs for which an exception other than 'too few intervals' is an accepted outcome: no data, NaN
+    observations, fewer observations than n_points"""
+    if len(data) == 0 or np.isnan(data).any():
+        return True
+    return case["slicer"] == "ppi" and len(data) < case["n_points"]
+
+
 def oracle_predrop(case, impl):
     """property predicates on the implementation's pre-drop output; returns list of (predicate, detail)"""
     bad = []
+    native = np_data(case)
+    data = native.astype(float)
     if "err" in impl:
+        if not error_is_legitimate(case, data):
+            bad.append(("unexpected_error", impl["err"] + ": " + impl.get("msg", "")))
         return bad
-    data = np.array(case["data"], dtype=float)
     K = impl["K"]
     if not impl["masklen_ok"] or any(len(m) != len(data) for m in impl["masks"]):
         bad.append(("masks_aligned", "mask length differs from data length"))
         return bad
-    M = np.array([[c == "1" for c in m] for m in impl["masks"]], dtype=bool).reshape(K, len(data))
+    M = mask_matrix(impl, len(data))
     counts = M.sum(axis=0)
     b = impl["bounds"]
     kind = case["slicer"]
+    # the configured value range is covered: computed from configuration + data, not from reported boundaries
+    req = required_cover(case, data)
+    for j in np.nonzero(req & (counts != 1))[0][:3]:
+        bad.append(("configured_range_covered_exactly_once",
+                    f"value {data[j]!r} at position {j} lies in the configured range but is in "
+                    f"{int(counts[j])} intervals"))
     if K == 0:
         return bad
-    # boundaries: lo <= hi, chained, not overlapping
-    for k in range(K):
-        if not (b[k][0] <= b[k][1]):
-            bad.append(("boundaries_ordered", f"interval {k}: {b[k]}"))
-    for k in range(K - 1):
-        if b[k][1] > b[k + 1][0]:
-            bad.append(("boundaries_overlap", f"intervals {k},{k+1}: {b[k][1]!r} > {b[k+1][0]!r}"))
-        elif b[k][1] < b[k + 1][0] and kind != "ppi":
-            bad.append(("boundaries_gap", f"intervals {k},{k+1}: {b[k][1]!r} < {b[k+1][0]!r}"))
-    # members inside the reported boundaries
-    for k in range(K):
-        xs = data[M[k]]
-        if len(xs) and (xs.min() < b[k][0] or xs.max() > b[k][1]):
-            bad.append(("boundaries_contain_members", f"interval {k}: {b[k]} members {xs.min()!r}..{xs.max()!r}"))
-    # exactly-one membership inside the covered range
+    # boundaries: lo <= hi, chained, not overlapping, members inside
+    bad += boundary_checks(kind, data, M, b)
+    # exactly-one membership inside the range the reported boundaries span
     lo0, hiK = b[0][0], b[-1][1]
     if kind == "width":
         if case["right_open"]:
@@ -244,51 +374,21 @@ def oracle_predrop(case, impl):
             if len(a) and len(c) and a.max() > c.min():
                 bad.append(("ppi_chunks_sorted", f"interval {k} max {a.max()!r} > interval {k+1} min {c.min()!r}"))
                 break
-    # references
-    ref = case.get("ref", "callable")
-    if ref != "callable":
-        for k in range(K):
-            lo, hi = b[k]
-            want = {"center": (lo + hi) / 2, "left": lo, "right": hi}[ref]
-            tol = 1e-9 * max(1.0, abs(lo), abs(hi))
-            if not abs(impl["refs"][k] - want) <= tol:
-                bad.append(("reference_value", f"interval {k} ref {impl['refs'][k]!r} expected {want!r} ({ref})"))
-                break
-    else:
-        for k in range(K):
-            xs = data[M[k]]
-            want = float(np.median(xs)) if len(xs) else float("nan")
-            got = impl["refs"][k]
-            if not (got == want or (np.isnan(got) and np.isnan(want))):
-                bad.append(("reference_value", f"interval {k} callable ref {got!r} expected {want!r}"))
-                break
+    bad += reference_checks(case, native, M, b, impl["refs"])
     return bad
 
 
 def oracle_drop(case, pre, post, min_pts, min_iv):
+    """drop rule and min_n_intervals error; what is returned after the drop (masks, boundaries, references) is
+    exactly what belongs to the surviving intervals"""
     bad = []
     if "err" in pre:
         return bad
-    # documented constructor rules: the minimum never exceeds what the configuration can give
-    if case["slicer"] == "number":
-        min_iv = min(min_iv, case["n_intervals"])
-    if case["slicer"] == "ppi":
-        min_pts = min(min_pts, case["n_points"])
+    min_pts, min_iv = effective_minimums(case, min_pts, min_iv)
+    native = np_data(case)
+    data = native.astype(float)
     counts = [m.count("1") for m in pre["masks"]]
     keep = [k for k in range(pre["K"]) if counts[k] >= min_pts]
-    if case["slicer"] == "ppi":
-        # boundaries are recomputed after the drop; compare masks only
-        keep_masks = [pre["masks"][k] for k in keep]
-        if "err" in post:
-            if post["err"] == "tooFewIntervals":
-                if len(keep) >= min_iv:
-                    bad.append(("too_few_error", f"raised although {len(keep)} >= {min_iv} intervals remain"))
-            return bad
-        if len(keep) < min_iv:
-            bad.append(("too_few_error", f"{len(keep)} intervals < min_n_intervals {min_iv} but no error"))
-        if post["masks"] != keep_masks:
-            bad.append(("drop_exactly_small", f"kept {post['K']} expected {len(keep)}"))
-        return bad
     if "err" in post:
         if post["err"] == "tooFewIntervals":
             if len(keep) >= min_iv:
@@ -298,10 +398,25 @@ def oracle_drop(case, pre, post, min_pts, min_iv):
         return bad
     if len(keep) < min_iv:
         bad.append(("too_few_error", f"{len(keep)} intervals < min_n_intervals {min_iv} but no error"))
-    want = [(pre["masks"][k], pre["bounds"][k]) for k in keep]
-    got = list(zip(post["masks"], post["bounds"]))
-    if want != got:
-        bad.append(("drop_exactly_small", f"kept {post['K']} intervals, expected {len(keep)} (counts {counts}, min {min_pts})"))
+    if post["masks"] != [pre["masks"][k] for k in keep]:
+        what = "returned masks are not those of the surviving pre-drop intervals" if post["K"] == len(keep) \
+            else f"kept {post['K']} intervals, expected {len(keep)}"
+        bad.append(("drop_exactly_small", f"{what} (pre-drop counts {counts}, min {min_pts})"))
+        return bad
+    if any(len(m) != len(data) for m in post["masks"]):
+        return bad
+    Mpost = mask_matrix(post, len(data))
+    if case["slicer"] == "ppi":
+        # boundaries are recomputed from the survivors: they must contain the survivors' members and not overlap
+        bad += boundary_checks("ppi", data, Mpost, post["bounds"], tag="post_drop_")
+    else:
+        if post["bounds"] != [pre["bounds"][k] for k in keep]:
+            bad.append(("post_drop_boundaries", f"boundaries after the drop {post['bounds'][:4]} are not those of "
+                                                f"the surviving intervals {[pre['bounds'][k] for k in keep][:4]}"))
+        if case.get("ref", "callable") != "callable" and post["refs"] != [pre["refs"][k] for k in keep]:
+            bad.append(("post_drop_references", f"references after the drop {post['refs'][:4]} are not those of "
+                                                f"the surviving intervals {[pre['refs'][k] for k in keep][:4]}"))
+    bad += reference_checks(case, native, Mpost, post["bounds"], post["refs"], tag="post_drop_")
     return bad
 
 
@@ -319,6 +434,61 @@ def lattice_cases(max_len, widths, ck):
                 for ro in (True, False):
                     yield {"slicer": "width", "width": w, "right_open": ro, "ref": "center",
                            "value_range": None, "data": list(combo), "min_pts": 1, "min_iv": 1, "gen": "lattice"}
+
+
+def number_lattice_cases(max_len, full_len, widths, ns):
+    """NumberOfIntervalsSlicer: all vectors of length <= max_len over {0, w/2, ..., (n + 1/2) w} (half a width
+    beyond the upper end), value_range None / (0, n*w), include_max both; for length <= full_len crossed with
+    all four reference kinds and two (min_n_points, min_n_intervals) settings, above that reference 'center', 1/1"""
+    for w in widths:
+        for n in ns:
+            vals = [i * w / 2 for i in range(2 * n + 2)]
+            for vr in (None, (0.0, n * w)):
+                for im in (True, False):
+                    for L in range(1, max_len + 1):
+                        if L <= full_len:
+                            opts = [(r, mp, mi) for r in REFS for (mp, mi) in ((1, 1), (2, 3))]
+                        else:
+                            opts = [("center", 1, 1)]
+                        for combo in itertools.product(vals, repeat=L):
+                            for r, mp, mi in opts:
+                                yield {"slicer": "number", "n_intervals": n, "include_max": im, "ref": r,
+                                       "value_range": vr, "data": list(combo), "min_pts": mp, "min_iv": mi,
+                                       "gen": "lattice-number"}
+
+
+def ppi_lattice_cases(max_len, widths):
+    """PointsPerIntervalSlicer: all vectors (any order, ties) of length <= max_len over {0, w, 2w, 3w} x
+    n_points 1..3 x last_full x three (min_n_points, min_n_intervals) settings"""
+    for w in widths:
+        vals = [i * w for i in range(4)]
+        for L in range(1, max_len + 1):
+            for combo in itertools.product(vals, repeat=L):
+                for npts in (1, 2, 3):
+                    if npts > L:
+                        continue
+                    for lf in (True, False):
+                        for mp, mi in ((1, 1), (2, 1), (3, 2)):
+                            yield {"slicer": "ppi", "n_points": npts, "last_full": lf, "data": list(combo),
+                                   "min_pts": mp, "min_iv": mi, "gen": "lattice-ppi"}
+
+
+def width_option_lattice_cases(max_len, widths):
+    """WidthOfIntervalSlicer option lattice on short vectors: reference kinds x right_open x value_range shapes
+    x (min_n_points, min_n_intervals)"""
+    for w in widths:
+        vals = [i * w / 2 for i in range(0, 9)]
+        for L in range(1, max_len + 1):
+            for combo in itertools.product(vals, repeat=L):
+                if max(combo) == 0:
+                    continue
+                for ro in (True, False):
+                    for vr in (None, (w, None), (None, 3 * w), (w / 2, 2 * w)):
+                        for r in REFS:
+                            for mp, mi in ((1, 1), (2, 3)):
+                                yield {"slicer": "width", "width": w, "right_open": ro, "ref": r,
+                                       "value_range": vr, "data": list(combo), "min_pts": mp, "min_iv": mi,
+                                       "gen": "lattice-width-options"}
 
 
 def random_data(rng, n):
@@ -391,6 +561,128 @@ def int_dtype_cases(rng, n_cases):
         c["as_int"] = True
         c["gen"] = "int-dtype"
         yield c
+
+
+def special_cases(rng, n_cases):
+    """input classes outside 'non-negative float64 ndarray with >= 1 element':
+    negative observations / negative value ranges, no observations, NaN observations (only with an explicit
+    value range: otherwise the range itself is NaN), Width value_range with lower > upper, other capitalisation
+    of the reference keyword, Python lists (string references only: the code indexes data for callables)"""
+    for case in random_cases(rng, n_cases):
+        c = dict(case)
+        kind = c["slicer"]
+        mode = ["negative", "all-negative", "empty", "nan", "neg-range", "reversed-range", "spelling", "list"][
+            int(rng.integers(0, 8))]
+        data = np.array(c["data"], dtype=float)
+        span = float(data.max() - data.min()) or 1.0
+        if mode == "negative":
+            shift = float(np.round(rng.uniform(0.2, 0.8) * span + data.min(), 1))
+            c["data"] = [float(v) for v in data - shift]
+            if kind != "ppi" and c["value_range"] is not None:
+                c["value_range"] = None
+        elif mode == "all-negative":
+            c["data"] = [float(v) for v in data - float(data.max()) - float(rng.choice([0.0, 0.05, 1.0, 10.0]))]
+            if kind != "ppi":
+                c["value_range"] = None
+        elif mode == "empty":
+            c["data"] = []
+            if kind == "width" and rng.integers(0, 2):
+                c["value_range"] = (0.0, 3.0 * c["width"])
+            if kind == "number" and rng.integers(0, 2):
+                c["value_range"] = (0.0, 3.0)
+        elif mode == "nan":
+            if kind == "ppi":
+                continue
+            lo = float(np.floor(data.min()))
+            hi = float(np.ceil(data.max())) + 1.0
+            if kind == "width" and (hi - lo) / c["width"] > 400:
+                c["width"] = (hi - lo) / 50.0
+            c["value_range"] = (lo, hi)
+            d = list(c["data"])
+            for _ in range(int(rng.integers(1, 4))):
+                d.insert(int(rng.integers(0, len(d) + 1)), float("nan"))
+            c["data"] = d
+        elif mode == "neg-range":
+            if kind == "ppi":
+                continue
+            shift = float(np.round(rng.uniform(0.2, 1.2) * span + data.min(), 1))
+            nd = data - shift
+            c["data"] = [float(v) for v in nd]
+            lo = float(np.floor(nd.min())) - float(rng.choice([0.0, 0.5]))
+            hi = float(rng.choice([lo + 1.0, -0.5, 0.0, float(nd.max())]))
+            if hi <= lo:
+                hi = lo + 1.0
+            if kind == "width":
+                if (max(hi, float(nd.max())) - lo) / c["width"] > 400:
+                    c["width"] = (max(hi, float(nd.max())) - lo) / 50.0
+                c["value_range"] = (lo, None) if rng.integers(0, 2) else (lo, hi)
+            else:
+                c["value_range"] = (lo, hi)
+        elif mode == "reversed-range":
+            if kind != "width":
+                continue
+            lo = float(rng.choice([1.0, 2.5, float(data.max())]))
+            c["value_range"] = (lo, lo - float(rng.choice([0.25, 0.5, 1.0, 3.0])) * c["width"])
+        elif mode == "spelling":
+            if kind == "ppi" or c["ref"] == "callable":
+                continue
+            c["ref_spelling"] = [c["ref"].capitalize(), c["ref"].upper(),
+                                 "".join(ch.upper() if i % 2 else ch for i, ch in enumerate(c["ref"]))][
+                int(rng.integers(0, 3))]
+        elif mode == "list":
+            if kind == "ppi" or c["ref"] == "callable":
+                continue
+            c["as_list"] = True
+        c["gen"] = "special:" + mode
+        yield c
+
+
+def float32_cases(rng, n_cases):
+    """float32 observations (oracles only: numpy then computes edges in single precision, which the
+    double-precision model does not describe)"""
+    for case in random_cases(rng, n_cases):
+        c = dict(case)
+        if rng.integers(0, 2):
+            # observations that sit exactly on edges also in single precision (binary fractions)
+            w0 = float(rng.choice([0.25, 0.5, 1.0, 2.0]))
+            c["data"] = [float(k) * w0 for k in rng.integers(0, 12, len(case["data"]))]
+            if max(c["data"]) <= 0:
+                continue
+            if c["slicer"] == "width":
+                c["width"] = w0 * float(rng.choice([1.0, 2.0]))
+                c["value_range"] = None if rng.integers(0, 2) else (w0, None)
+            elif c["slicer"] == "number":
+                c["value_range"] = None if rng.integers(0, 2) else (0.0, max(c["data"]))
+        c["data"] = [float(np.float32(v)) for v in c["data"]]
+        c["dtype"] = "float32"
+        c["gen"] = "float32"
+        yield c
+
+
+def default_cases(rng, n_cases):
+    """the slicer is constructed with ONLY its mandatory argument; the case carries the documented defaults
+    explicitly (DEFAULTS), so model and oracles judge the result against the documentation"""
+    for _ in range(n_cases):
+        n = int(rng.choice([3, 40, 150, 200, 400, 1000]))
+        data = random_data(rng, n)
+        kind = ["width", "number", "ppi"][int(rng.integers(0, 3))]
+        base = {"data": data, "min_pts": DEFAULTS["min_pts"], "min_iv": DEFAULTS["min_iv"],
+                "omit_defaults": True, "gen": "defaults-omitted"}
+        mx = max(data)
+        if kind == "width":
+            if mx <= 0:
+                continue
+            base.update(slicer="width", width=float(mx / rng.choice([2, 3, 4, 6, 9])) * float(rng.choice([1.0, 1.01])),
+                        right_open=DEFAULTS["right_open"], ref="center", value_range=None)
+        elif kind == "number":
+            base.update(slicer="number", n_intervals=int(rng.choice([1, 2, 3, 4, 6, 10])),
+                        include_max=DEFAULTS["include_max"], ref="center", value_range=None)
+        else:
+            if rng.integers(0, 2):
+                rng.shuffle(data)
+            base.update(slicer="ppi", n_points=int(rng.choice([20, 30, 50, 60, 100, 130])),
+                        last_full=DEFAULTS["last_full"])
+        yield base
 
 
 def edge_probe_cases(base_cases):
@@ -481,28 +773,50 @@ def sig(case, predicate):
             "predicate": predicate}
 
 
+def uses_model(case):
+    return case.get("dtype") != "float32"
+
+
 def process(ck, cases):
     """run impl + model on a batch of cases, compare, evaluate oracle"""
-    lines, impls = [], []
-    for case in cases:
+    lines, impls, at = [], [], {}
+    for i, case in enumerate(cases):
         pre = run_impl(case, 0, 0)
-        post = run_impl(case, case["min_pts"], case["min_iv"])
+        post = run_impl(case, case["min_pts"], case["min_iv"], omit=case.get("omit_defaults", False))
         impls.append((pre, post))
-        lines.append(model_line(case, 0, 0))
-        lines.append(model_line(case, case["min_pts"], case["min_iv"]))
+        if uses_model(case):
+            at[i] = len(lines)
+            lines.append(model_line(case, 0, 0))
+            lines.append(model_line(case, case["min_pts"], case["min_iv"]))
     answers = ck.driver.run(lines) if lines else []
     for i, case in enumerate(cases):
         pre, post = impls[i]
-        mpre, mpost = parse_model(answers[2 * i]), parse_model(answers[2 * i + 1])
-        nontrivial = "err" not in pre and pre["K"] >= 2 and len(case["data"]) >= 2
-        ck.case(case, nontrivial=nontrivial, sample=(case["gen"] != "lattice" or ck.evaluations % 5000 == 0))
+        n = len(case["data"])
+        nontrivial = "err" not in pre and pre["K"] >= 2 and n >= 2
+        ck.case(case, nontrivial=nontrivial, sample=(not case["gen"].startswith("lattice") or ck.evaluations % 5000 == 0))
         ck.count("slicer=" + case["slicer"])
         ck.count("gen=" + case["gen"])
         if "err" in post:
             ck.count("post_error=" + post["err"])
+        if "err" in pre:
+            ck.count("pre_error=" + pre["err"])
+        elif pre["K"] == 0:
+            ck.count("pre_drop_no_intervals")
+        if n and min(case["data"]) < 0:
+            ck.count("data=negative-values")
+        if "err" not in pre and "err" not in post and post["K"] < pre["K"]:
+            ck.count("dropped_some:" + case["slicer"])
+        if case["slicer"] == "number" and case["min_iv"] > case["n_intervals"]:
+            ck.count("cap_binds:number_min_n_intervals")
+        if case["slicer"] == "ppi" and case["min_pts"] > case["n_points"]:
+            ck.count("cap_binds:ppi_min_n_points")
         bad = oracle_predrop(case, pre) + oracle_drop(case, pre, post, case["min_pts"], case["min_iv"])
         for pred, detail in bad:
             ck.fail(sig(case, pred), case, detail)
+        if i not in at:
+            ck.count("oracles_only_no_model")
+            continue
+        mpre, mpost = parse_model(answers[at[i]], n), parse_model(answers[at[i] + 1], n)
         d = compare(pre, mpre, case)
         if d is None:
             # post-drop: PPI boundaries are recomputed, everything compared
@@ -515,47 +829,131 @@ def process(ck, cases):
             ck.count("divergence_with_oracle_failure")
 
 
+def process_stream(ck, gen, size=20000):
+    batch = []
+    for c in gen:
+        batch.append(c)
+        if len(batch) >= size:
+            process(ck, batch)
+            batch = []
+    process(ck, batch)
+
+
+LATTICE_GENS = {
+    "width": lambda max_len, widths: lattice_cases(max_len, widths, None),
+    "width-options": lambda max_len, widths: width_option_lattice_cases(max_len, widths),
+    "number": lambda max_len, full_len, widths, ns: number_lattice_cases(max_len, full_len, widths, ns),
+    "ppi": lambda max_len, widths: ppi_lattice_cases(max_len, widths),
+}
+
+
+def lattice_plan(thorough):
+    widths = [0.1, 0.3, 0.5, 0.7, 1.0] if thorough else [0.1, 0.3, 0.7]
+    return [
+        ("width", (5 if thorough else 3, widths)),
+        ("width-options", (3 if thorough else 2, widths)),
+        ("number", (4 if thorough else 3, 2, widths, (1, 2, 3, 4) if thorough else (2, 3))),
+        ("ppi", (6 if thorough else 4, [0.1, 0.7, 1.0] if thorough else [0.1, 0.7])),
+    ]
+
+
+def _lattice_worker(args):
+    """thorough tier: every nparts-th case of one lattice in a worker process (own driver); returns the tallies"""
+    seed, tier, name, gargs, part, nparts = args
+    ck = core.Check("C10", tier, seed)
+    ck.driver = core.Driver()
+    process_stream(ck, itertools.islice(LATTICE_GENS[name](*gargs), part, None, nparts))
+    return {"evaluations": ck.evaluations, "keys": ck.keys, "nontrivial": ck.nontrivial, "samples": ck.samples,
+            "dist": ck.dist, "div": ck.divergences[:50], "fail": ck.failures[:200], "known": ck.known_seen,
+            "lines": ck.driver.n_lines}
+
+
+def run_lattices(ck, thorough):
+    plan = lattice_plan(thorough)
+    if not thorough:
+        for name, gargs in plan:
+            process_stream(ck, LATTICE_GENS[name](*gargs))
+        return
+    jobs = []
+    for name, gargs in plan:
+        nparts = 48 if name == "width" else 8
+        jobs += [(ck.seed, ck.tier, name, gargs, part, nparts) for part in range(nparts)]
+    with multiprocessing.Pool(8) as pool:
+        for r in pool.imap_unordered(_lattice_worker, jobs):
+            ck.evaluations += r["evaluations"]
+            new = r["keys"] - ck.keys
+            ck.keys |= r["keys"]
+            ck.nontrivial += r["nontrivial"] if len(new) == len(r["keys"]) else min(r["nontrivial"], len(new))
+            for smp in r["samples"]:
+                if len(ck.samples) < 4:
+                    ck.samples.append(smp)
+            for k, v in r["dist"].items():
+                ck.count(k, v)
+            ck.divergences += r["div"]
+            for f in r["fail"]:
+                ck.fail(*f)
+            for kid, v in r["known"].items():
+                ck.known_seen.setdefault(kid, v)
+            ck.driver.n_lines += r["lines"]
+
+
 def main(ck):
     rng = np.random.default_rng(ck.seed)
     thorough = ck.tier == "thorough"
     ck.rule = (
-        "corpus witnesses, then exhaustive lattice vectors (values k*w/2, k=0..12) of length <= "
+        "corpus witnesses; exhaustive lattices: WidthOfIntervalSlicer vectors of values k*w/2 (k=0..12) of length <= "
         + ("5" if thorough else "3")
-        + " for WidthOfIntervalSlicer x right_open, then random vectors (ties, rounded, shuffled) for all "
-        "three slicers x options, then edge-probing (every reported edge and its two float neighbours); "
+        + " x right_open (reference center, no value_range, minimums 1/1) and values k*w/2 (k=0..8) of length <= "
+        + ("3" if thorough else "2")
+        + " x right_open x 4 value_range shapes x 4 reference kinds x 2 minimum settings; NumberOfIntervalsSlicer "
+        "n_intervals " + ("1..4" if thorough else "2,3") + " vectors over {0..(n+1/2)w step w/2} of length <= "
+        + ("4" if thorough else "3")
+        + " x include_max x value_range None/(0,n*w), up to length 2 also x 4 reference kinds x 2 minimum settings; "
+        "PointsPerIntervalSlicer vectors over {0,w,2w,3w} of length <= " + ("6" if thorough else "4")
+        + " x n_points 1..3 x last_full x 3 minimum settings; then random vectors (ties, rounded, shuffled) for all "
+        "three slicers x options, edge-probing (every reported edge and its two float neighbours), integer dtype, "
+        "special inputs (negative, empty, NaN, negative / reversed value ranges, keyword capitalisation, lists), "
+        "float32 (oracles only), defaults omitted, slicer re-use; "
         "a case is non-trivial if it has >= 2 observations and >= 2 pre-drop intervals; distinct by SHA1 of the case"
     )
     ck.assumptions = [
         "np.argsort result is passed to the model as the sorting permutation (validated to be a permutation by the model)",
         "callable references are observed through a recording callable",
+        "NumberOfIntervalsSlicer value_range is a pair of numbers lower <= upper (a None entry is a TypeError in the "
+        "code, lower > upper yields reversed boundaries: neither is generated)",
+        "NaN observations only together with an explicit value range; they are outside every range",
     ]
+    ck.partial = {
+        "float32 observations": "only the oracles are evaluated on the implementation's output (no model "
+                                "correspondence: numpy computes float32 edges for NumberOfIntervalsSlicer)",
+        "negative observations with WidthOfIntervalSlicer and no value_range": "lie below the covered range [0, max] "
+        "and are in no interval; the property text only speaks about observations inside the covered range",
+    }
     process(ck, list(corpus_cases()))
-    widths = [0.1, 0.3, 0.5, 0.7, 1.0] if thorough else [0.1, 0.3, 0.7]
-    batch = []
-    for c in lattice_cases(5 if thorough else 3, widths, ck):
-        batch.append(c)
-        if len(batch) >= 20000:
-            process(ck, batch)
-            batch = []
-    process(ck, batch)
+    run_lattices(ck, thorough)
     rnd = list(random_cases(rng, 6000 if thorough else 500))
     process(ck, rnd)
     process(ck, list(edge_probe_cases(rnd)))
     process(ck, list(int_dtype_cases(rng, 1500 if thorough else 150)))
+    process(ck, list(special_cases(rng, 4000 if thorough else 400)))
+    process(ck, list(float32_cases(rng, 1500 if thorough else 150)))
+    process(ck, list(default_cases(rng, 600 if thorough else 60)))
     check_reuse(ck, rng, 600 if thorough else 80)
     ck.extra["exhaustive"] = False
-    ck.extra["lattice_exhaustive_up_to_length"] = 5 if thorough else 3
+    ck.extra["lattice_exhaustive_up_to_length"] = {"width": 5 if thorough else 3, "number": 4 if thorough else 3,
+                                                   "ppi": 6 if thorough else 4}
 
 
 def replay(ck, payload):
     case = payload["case"]
     pre = run_impl(case, 0, 0)
-    post = run_impl(case, case["min_pts"], case["min_iv"])
+    post = run_impl(case, case["min_pts"], case["min_iv"], omit=case.get("omit_defaults", False))
     bad = oracle_predrop(case, pre) + oracle_drop(case, pre, post, case["min_pts"], case["min_iv"])
     for pred, detail in bad:
         print("oracle:", pred, detail)
-    if ck.driver:
+    if ck.driver and uses_model(case):
+        n = len(case["data"])
         ans = ck.driver.run([model_line(case, 0, 0), model_line(case, case["min_pts"], case["min_iv"])])
-        print("correspondence pre :", compare(pre, parse_model(ans[0]), case))
-        print("correspondence post:", compare(post, parse_model(ans[1]), case))
+        print("correspondence pre :", compare(pre, parse_model(ans[0], n), case))
+        print("correspondence post:", compare(post, parse_model(ans[1], n), case))
     return not bad
